@@ -40,6 +40,7 @@ import (
 	"sort"
 	"strconv"
 	"strings"
+	"sync"
 	"testing"
 	"time"
 
@@ -60,7 +61,7 @@ var c27Schema = []string{
 	`CREATE TRIGGER a_del AFTER DELETE ON a BEGIN UPDATE log SET n = n + 1 WHERE what = 'b-insert'; END`,
 }
 
-var c27Tables = []string{"a", "b", "c", "log"}
+var c27Tables = []string{"a", "b", "c", "log", "d"} // d exists only after a generated CREATE TABLE
 
 type c27Stmt struct {
 	SQL   string
@@ -120,7 +121,7 @@ func c27GenStmt(rt *rapid.T, idx int, uctr *int) c27Stmt {
 		"a-insert", "a-insert", "a-insert-id", "a-insert-id", "a-multi", "a-multi", "a-or-replace", "a-or-replace", "a-or-ignore", "a-or-fail",
 		"a-upsert", "a-update", "a-update", "a-update-unique", "a-update-rowid", "a-update-or-replace", "a-update-noop", "a-delete", "a-delete-all",
 		"b-insert", "b-insert", "b-multi", "b-update", "b-delete", "c-insert", "c-insert", "c-update", "c-delete",
-		"syntax", "notnull-like", "select",
+		"syntax", "notnull-like", "select", "d-insert", "d-insert", "d-update", "d-delete",
 	}
 	cl := rapid.SampledFrom(classes).Draw(rt, "class")
 	s := c27Stmt{Class: cl}
@@ -179,9 +180,30 @@ func c27GenStmt(rt *rapid.T, idx int, uctr *int) c27Stmt {
 		s.SQL = fmt.Sprintf("INSERT INTO c(id,aid,note) VALUES(%d,NULL,'ok'),(%d,999,'dangling')", 50+idx, 60+idx)
 	case "select":
 		s.SQL = "SELECT count(*) FROM a"
+	case "d-insert":
+		s.SQL = fmt.Sprintf("INSERT INTO d(p,q) VALUES(%s,%s)", c27Lit(rt), c27Lit(rt))
+	case "d-update":
+		s.SQL = fmt.Sprintf("UPDATE d SET q=%s WHERE rowid<=%d", c27Lit(rt), k())
+	case "d-delete":
+		s.SQL = fmt.Sprintf("DELETE FROM d WHERE rowid=%d", k())
 	}
 	return s
 }
+
+// c27DDL: schema changes between writes (at most one per request).
+var c27DDL = []c27Stmt{
+	{SQL: "ALTER TABLE b RENAME COLUMN v TO v2", Class: "ddl-rename-column"},
+	{SQL: "ALTER TABLE a RENAME COLUMN i TO i2", Class: "ddl-rename-column"},
+	{SQL: "ALTER TABLE b ADD COLUMN x DEFAULT 7", Class: "ddl-add-column"},
+	{SQL: "ALTER TABLE d ADD COLUMN x", Class: "ddl-add-column"},
+	{SQL: "ALTER TABLE b DROP COLUMN n", Class: "ddl-drop-column"},
+	{SQL: "CREATE TABLE d (p, q)", Class: "ddl-create-table"},
+	{SQL: "CREATE TABLE d (p, q)", Class: "ddl-create-table"},
+	{SQL: "CREATE TABLE d (q, extra, p)", Class: "ddl-create-table"},
+	{SQL: "DROP TABLE d", Class: "ddl-drop-table"},
+}
+
+func c27IsDDL(class string) bool { return strings.HasPrefix(class, "ddl-") }
 
 func c27GenCase(rt *rapid.T) c27Case {
 	var c c27Case
@@ -215,7 +237,47 @@ func c27GenCase(rt *rapid.T) c27Case {
 		if rapid.IntRange(0, 5).Draw(rt, "savepoint") == 0 {
 			spAt = rapid.IntRange(0, n-1).Draw(rt, "spat")
 		}
+		ddlAt := -1
+		if rapid.IntRange(0, 2).Draw(rt, "ddl") != 1 {
+			ddlAt = rapid.IntRange(0, n-1).Draw(rt, "ddlat")
+		}
+		ddlTable := ""
 		for i := 0; i < n; i++ {
+			if i == ddlAt {
+				d := rapid.SampledFrom(c27DDL).Draw(rt, "ddlstmt")
+				req.Stmts = append(req.Stmts, d)
+				ddlTable = strings.Fields(d.SQL)[2]
+			}
+			if ddlTable != "" && rapid.IntRange(0, 3).Draw(rt, "ontable") > 0 {
+				// writes on the table whose schema just changed
+				var sql string
+				switch ddlTable {
+				case "a":
+					sql = rapid.SampledFrom([]string{
+						fmt.Sprintf("INSERT INTO a(r,t,u) VALUES(%s,%s,%d)", c27Lit(rt), c27Lit(rt), 5000+r*10+i),
+						fmt.Sprintf("UPDATE a SET t=%s WHERE id<=%d", c27Lit(rt), rapid.IntRange(1, 4).Draw(rt, "ka")),
+						fmt.Sprintf("DELETE FROM a WHERE id=%d", rapid.IntRange(1, 4).Draw(rt, "kd")),
+					}).Draw(rt, "aftera")
+				case "b":
+					sql = rapid.SampledFrom([]string{
+						fmt.Sprintf("INSERT INTO b(k) VALUES(%s)", c27Lit(rt)),
+						fmt.Sprintf("UPDATE b SET k=%s WHERE rowid<=%d", c27Lit(rt), rapid.IntRange(1, 3).Draw(rt, "kb")),
+						"DELETE FROM b WHERE rowid=1",
+					}).Draw(rt, "afterb")
+				default:
+					sql = rapid.SampledFrom([]string{
+						fmt.Sprintf("INSERT INTO d(p,q) VALUES(%s,%s)", c27Lit(rt), c27Lit(rt)),
+						fmt.Sprintf("UPDATE d SET q=%s", c27Lit(rt)),
+						"DELETE FROM d WHERE rowid=1",
+					}).Draw(rt, "afterd")
+				}
+				req.Stmts = append(req.Stmts, c27Stmt{SQL: sql, Class: "after-ddl-write"})
+				if i == closeAt {
+					end := rapid.SampledFrom([]string{"COMMIT", "ROLLBACK", "ROLLBACK"}).Draw(rt, "end")
+					req.Stmts = append(req.Stmts, c27Stmt{SQL: end, Class: strings.ToLower(end)})
+				}
+				continue
+			}
 			if i == spAt {
 				req.Stmts = append(req.Stmts, c27Stmt{SQL: "SAVEPOINT sp", Class: "savepoint"})
 				req.Stmts = append(req.Stmts, c27GenStmt(rt, r*10+i+5, &uctr))
@@ -239,39 +301,61 @@ type c27Row []any // int64 float64 string []byte nil
 
 type c27State map[string]map[int64]c27Row
 
-func c27Snapshot(v *sql.DB, cols map[string][]string) (c27State, error) {
+// c27Snapshot reads the committed rows and the column names of every table
+// that currently exists.
+func c27Snapshot(v *sql.DB) (c27State, map[string][]string, error) {
 	st := c27State{}
+	cols := map[string][]string{}
 	for _, t := range c27Tables {
-		rows, err := v.Query(fmt.Sprintf("SELECT rowid, %s FROM %s", strings.Join(cols[t], ", "), t))
+		cr, err := v.Query("SELECT name FROM pragma_table_info(?) ORDER BY cid", t)
 		if err != nil {
-			return nil, err
+			return nil, nil, err
+		}
+		var names, quoted []string
+		for cr.Next() {
+			var n string
+			if err := cr.Scan(&n); err != nil {
+				cr.Close()
+				return nil, nil, err
+			}
+			names = append(names, n)
+			quoted = append(quoted, `"`+n+`"`)
+		}
+		cr.Close()
+		if len(names) == 0 {
+			continue // table does not exist
+		}
+		cols[t] = names
+		rows, err := v.Query(fmt.Sprintf("SELECT rowid, %s FROM %s", strings.Join(quoted, ", "), t))
+		if err != nil {
+			return nil, nil, err
 		}
 		m := map[int64]c27Row{}
 		for rows.Next() {
-			dest := make([]any, len(cols[t])+1)
+			dest := make([]any, len(names)+1)
 			ptrs := make([]any, len(dest))
 			for i := range dest {
 				ptrs[i] = &dest[i]
 			}
 			if err := rows.Scan(ptrs...); err != nil {
 				rows.Close()
-				return nil, err
+				return nil, nil, err
 			}
 			id, ok := dest[0].(int64)
 			if !ok {
 				rows.Close()
-				return nil, fmt.Errorf("rowid is %T", dest[0])
+				return nil, nil, fmt.Errorf("rowid is %T", dest[0])
 			}
 			m[id] = c27Row(dest[1:])
 		}
 		if err := rows.Err(); err != nil {
 			rows.Close()
-			return nil, err
+			return nil, nil, err
 		}
 		rows.Close()
 		st[t] = m
 	}
-	return st, nil
+	return st, cols, nil
 }
 
 func (st c27State) clone() c27State {
@@ -449,8 +533,45 @@ func c27EvString(ev *command.CDCEvent) string {
 
 // c27Replay applies the groups to before and compares with after. It returns
 // "" or a description of the first discrepancy.
-func c27Replay(before, after c27State, groups []*command.CDCIndexedEventGroup, filter *regexp.Regexp, idsOnly bool, cols map[string][]string) string {
+// c27Schema describes the columns around one request.
+type c27Cols struct {
+	before, after map[string][]string
+	strictAfter   bool // every event of the request was committed after the schema change (or there is none)
+}
+
+// names returns the acceptable column-name lists for an event of table t.
+func (cc c27Cols) names(t string) [][]string {
+	b, inB := cc.before[t]
+	a, inA := cc.after[t]
+	switch {
+	case inA && (cc.strictAfter || !inB):
+		return [][]string{a}
+	case inA && inB:
+		return [][]string{a, b}
+	case inB:
+		return [][]string{b}
+	}
+	return nil
+}
+
+// replayable: rows of the table can be replayed by position (same number of
+// columns before and after, or the table was created by this request).
+func (cc c27Cols) replayable(t string) bool {
+	b, inB := cc.before[t]
+	a, inA := cc.after[t]
+	if !inA {
+		return false
+	}
+	return !inB || len(a) == len(b)
+}
+
+func c27Replay(before, after c27State, groups []*command.CDCIndexedEventGroup, filter *regexp.Regexp, idsOnly bool, cc c27Cols) string {
 	shadow := before.clone()
+	for _, t := range c27Tables {
+		if shadow[t] == nil {
+			shadow[t] = map[int64]c27Row{}
+		}
+	}
 	for gi, g := range groups {
 		for ei, ev := range g.Events {
 			where := fmt.Sprintf("group %d event %d (%s)", gi, ei, c27EvString(ev))
@@ -464,13 +585,30 @@ func c27Replay(before, after c27State, groups []*command.CDCIndexedEventGroup, f
 			if filter != nil && !filter.MatchString(ev.Table) {
 				return where + ": table does not match the filter"
 			}
-			if strings.Join(ev.ColumnNames, ",") != strings.Join(cols[ev.Table], ",") {
-				return where + fmt.Sprintf(": column names %v, table has %v", ev.ColumnNames, cols[ev.Table])
+			okNames := false
+			var ncols int
+			for _, cand := range cc.names(ev.Table) {
+				if strings.Join(ev.ColumnNames, ",") == strings.Join(cand, ",") {
+					okNames = true
+					ncols = len(cand)
+				}
+			}
+			if !okNames {
+				return where + fmt.Sprintf(": column names %v, table has %v", ev.ColumnNames, cc.names(ev.Table))
 			}
 			if idsOnly {
 				if ev.OldRow != nil || ev.NewRow != nil {
 					return where + ": row images present in row-ids-only mode"
 				}
+			} else {
+				for _, img := range []*command.CDCRow{ev.OldRow, ev.NewRow} {
+					if img != nil && len(img.Values) != len(ev.ColumnNames) {
+						return where + fmt.Sprintf(": image has %d values for column names %v", len(img.Values), ev.ColumnNames)
+					}
+				}
+			}
+			if !cc.replayable(ev.Table) {
+				continue // the schema change itself rewrote or removed rows; structural checks only
 			}
 			switch ev.Op {
 			case command.CDCEvent_INSERT:
@@ -480,7 +618,7 @@ func c27Replay(before, after c27State, groups []*command.CDCIndexedEventGroup, f
 				if idsOnly {
 					tbl[ev.NewRowId] = nil
 				} else {
-					if ev.NewRow == nil || len(ev.NewRow.Values) != len(cols[ev.Table]) {
+					if ev.NewRow == nil || len(ev.NewRow.Values) != ncols {
 						return where + ": INSERT without a complete after-image"
 					}
 					if ev.OldRow != nil {
@@ -494,7 +632,7 @@ func c27Replay(before, after c27State, groups []*command.CDCIndexedEventGroup, f
 					return where + ": UPDATE of a row id that does not exist"
 				}
 				if !idsOnly {
-					if ev.NewRow == nil || len(ev.NewRow.Values) != len(cols[ev.Table]) {
+					if ev.NewRow == nil || len(ev.NewRow.Values) != ncols {
 						return where + ": UPDATE without a complete after-image"
 					}
 					if !c27RowEq(ev.Table, old, ev.OldRow) {
@@ -533,6 +671,9 @@ func c27Replay(before, after c27State, groups []*command.CDCIndexedEventGroup, f
 		if filter != nil && !filter.MatchString(t) {
 			continue
 		}
+		if !cc.replayable(t) {
+			continue
+		}
 		sh, af := shadow[t], after[t]
 		var ids []int64
 		seen := map[int64]bool{}
@@ -568,7 +709,7 @@ func c27Replay(before, after c27State, groups []*command.CDCIndexedEventGroup, f
 
 // c27ExplainedBySurplus reports whether the replay becomes exact when one
 // contiguous run of events (or two runs, for short sequences) is left out.
-func c27ExplainedBySurplus(before, after c27State, groups []*command.CDCIndexedEventGroup, filter *regexp.Regexp, idsOnly bool, cols map[string][]string) bool {
+func c27ExplainedBySurplus(before, after c27State, groups []*command.CDCIndexedEventGroup, filter *regexp.Regexp, idsOnly bool, cols c27Cols) bool {
 	var evs []*command.CDCEvent
 	for _, g := range groups {
 		evs = append(evs, g.Events...)
@@ -709,6 +850,15 @@ func c27CheckJSON(groups []*command.CDCIndexedEventGroup, idsOnly bool) string {
 			je := env.Payload[gi].Events[ei]
 			if je.Op != ev.Op.String() || je.Table != ev.Table || num(je.NewRowID) != ev.NewRowId || num(je.OldRowID) != ev.OldRowId {
 				return fmt.Sprintf("json message %d event %d: %s %s old=%s new=%s for %s", gi, ei, je.Op, je.Table, je.OldRowID, je.NewRowID, c27EvString(ev))
+			}
+			// an event that cannot carry values (it has an error, or its images
+			// do not fit its column names) must still be delivered, with an error
+			mismatch := (ev.OldRow != nil && len(ev.OldRow.Values) != len(ev.ColumnNames)) || (ev.NewRow != nil && len(ev.NewRow.Values) != len(ev.ColumnNames))
+			if ev.Error != "" || mismatch {
+				if je.Error == "" {
+					return fmt.Sprintf("json message %d event %d: event with error/mismatching column count delivered without error", gi, ei)
+				}
+				continue
 			}
 			if je.Error != "" {
 				return fmt.Sprintf("json message %d event %d carries error %s", gi, ei, je.Error)
@@ -855,7 +1005,7 @@ func (e *c27Env) reset(c c27Case) error {
 		e.cdc = false
 	}
 	e.exec(false, "ROLLBACK")
-	stmts := []string{"DROP TABLE IF EXISTS c", "DROP TABLE IF EXISTS a", "DROP TABLE IF EXISTS b", "DROP TABLE IF EXISTS log"}
+	stmts := []string{"DROP TABLE IF EXISTS c", "DROP TABLE IF EXISTS a", "DROP TABLE IF EXISTS b", "DROP TABLE IF EXISTS log", "DROP TABLE IF EXISTS d"}
 	stmts = append(stmts, c27Schema...)
 	stmts = append(stmts, c.Init...)
 	rs, err := e.exec(true, stmts...)
@@ -870,7 +1020,29 @@ func (e *c27Env) reset(c c27Case) error {
 			return fmt.Errorf("reset statement %q failed: %v", stmts[i], r)
 		}
 	}
+	e.warm()
 	return nil
+}
+
+// warm makes several connections of the Store's read-only pool load the
+// current schema and prepare the column-name lookups, so that a later lookup
+// is likely to land on a connection whose view of the schema is old.
+func (e *c27Env) warm() {
+	var wg sync.WaitGroup
+	for i := 0; i < 3; i++ {
+		wg.Add(1)
+		go func() {
+			defer wg.Done()
+			qr := &command.QueryRequest{Request: &command.Request{}, Level: command.ConsistencyLevel_NONE}
+			qr.Request.Statements = append(qr.Request.Statements, &command.Statement{
+				Sql: "WITH RECURSIVE n(x) AS (SELECT 1 UNION ALL SELECT x+1 FROM n WHERE x<30000) SELECT count(*) FROM n"})
+			for _, t := range c27Tables {
+				qr.Request.Statements = append(qr.Request.Statements, &command.Statement{Sql: fmt.Sprintf(`SELECT * FROM "%s" LIMIT 0`, t)})
+			}
+			e.s.Query(context.Background(), qr)
+		}()
+	}
+	wg.Wait()
 }
 
 func c27Run(rt *rapid.T, rec *vstat.Rec, env *c27Env, c c27Case) {
@@ -891,21 +1063,8 @@ func c27Run(rt *rapid.T, rec *vstat.Rec, env *c27Env, c c27Case) {
 		rt.Skipf("infrastructure: %v", err)
 	}
 	defer v.Close()
-	cols := map[string][]string{}
-	for _, t := range c27Tables {
-		rows, err := v.Query("SELECT name FROM pragma_table_info(?) ORDER BY cid", t)
-		if err != nil {
-			rt.Skipf("infrastructure: %v", err)
-		}
-		for rows.Next() {
-			var n string
-			rows.Scan(&n)
-			cols[t] = append(cols[t], n)
-		}
-		rows.Close()
-	}
 	// the starting state must be what the case says (shared store)
-	start, err := c27Snapshot(v, cols)
+	start, _, err := c27Snapshot(v)
 	if err != nil {
 		rt.Skipf("infrastructure: snapshot: %v", err)
 	}
@@ -915,17 +1074,17 @@ func c27Run(rt *rapid.T, rec *vstat.Rec, env *c27Env, c c27Case) {
 			nInitA++
 		}
 	}
-	if len(start["a"]) != nInitA || len(start["log"]) != len(start["b"]) {
+	if len(start["a"]) != nInitA || len(start["log"]) != len(start["b"]) || start["d"] != nil {
 		rt.Skipf("infrastructure: shared store not in the initial state")
 	}
 
-	totalEvents, anyFailedStmt, multi := 0, false, false
+	totalEvents, anyFailedStmt, multi, anyDDL, lastDDL := 0, false, false, false, ""
 	type pending struct {
 		sig, msg string
 	}
 	var firstFail *pending
 	for ri, req := range c.Reqs {
-		before, err := c27Snapshot(v, cols)
+		before, colsB, err := c27Snapshot(v)
 		if err != nil {
 			rt.Skipf("infrastructure: snapshot: %v", err)
 		}
@@ -953,7 +1112,7 @@ func c27Run(rt *rapid.T, rec *vstat.Rec, env *c27Env, c c27Case) {
 				break drain
 			}
 		}
-		after, err := c27Snapshot(v, cols)
+		after, colsA, err := c27Snapshot(v)
 		if err != nil {
 			rt.Skipf("infrastructure: snapshot: %v", err)
 		}
@@ -973,9 +1132,43 @@ func c27Run(rt *rapid.T, rec *vstat.Rec, env *c27Env, c c27Case) {
 		if firstFail != nil {
 			continue
 		}
+		// schema around this request: events committed after the (single)
+		// schema change must carry the new column names
+		ddlClass, ddlSeen, dmlBeforeDDL := "", false, false
+		ddlSameTx, open := req.Tx, false // open: inside an explicit transaction or savepoint
+		for _, s := range req.Stmts {
+			switch s.Class {
+			case "begin", "savepoint":
+				open = true
+			case "commit", "rollback", "release":
+				open = false
+			}
+			switch {
+			case c27IsDDL(s.Class):
+				ddlClass, ddlSeen = s.Class, true
+				ddlSameTx = ddlSameTx || open
+			case !ddlSeen && s.Class != "begin" && s.Class != "savepoint" && s.Class != "select":
+				dmlBeforeDDL = true
+			}
+		}
+		cols := c27Cols{before: colsB, after: colsA, strictAfter: req.Tx || !ddlSeen || !dmlBeforeDDL}
+		if ddlSeen {
+			anyDDL = true
+			lastDDL = ddlClass
+		}
 		msg := c27Replay(before, after, groups, filter, c.IDsOnly, cols)
 		sig := ""
-		if msg != "" {
+		// the envelope must describe the groups it is given, whatever they are
+		if m := c27CheckJSON(groups, c.IDsOnly); m != "" {
+			firstFail = &pending{"C27/json-envelope-mismatch", fmt.Sprintf("request %d: %s", ri, m)}
+			continue
+		}
+		if msg != "" && !ddlSeen && lastDDL != "" && (strings.Contains(msg, "column names") || strings.Contains(msg, "carries error") || strings.Contains(msg, "values for column names")) {
+			// the schema changed in an earlier request of this program
+			sig = fmt.Sprintf("C27/wrong-column-names-after-schema-change{ddl=%s,same-tx=false}", strings.TrimPrefix(lastDDL, "ddl-"))
+		} else if msg != "" && ddlSeen && (strings.Contains(msg, "column names") || strings.Contains(msg, "carries error") || strings.Contains(msg, "values for column names")) {
+			sig = fmt.Sprintf("C27/wrong-column-names-after-schema-change{ddl=%s,same-tx=%v}", strings.TrimPrefix(ddlClass, "ddl-"), ddlSameTx)
+		} else if msg != "" {
 			sig = "C27/replay-mismatch"
 			// phantom signatures are reserved for discrepancies that are
 			// explained by surplus events: leaving out one (or two) contiguous
@@ -987,8 +1180,6 @@ func c27Run(rt *rapid.T, rec *vstat.Rec, env *c27Env, c c27Case) {
 			if !structural && c27ExplainedBySurplus(before, after, groups, filter, c.IDsOnly, cols) {
 				sig = c27Classify(req, failed)
 			}
-		} else if m := c27CheckJSON(groups, c.IDsOnly); m != "" {
-			msg, sig = m, "C27/json-envelope-mismatch"
 		}
 		if msg != "" {
 			firstFail = &pending{sig, fmt.Sprintf("request %d: %s", ri, msg)}
@@ -1012,6 +1203,9 @@ func c27Run(rt *rapid.T, rec *vstat.Rec, env *c27Env, c c27Case) {
 	if multi {
 		rec.Label("multi-event-group")
 	}
+	if anyDDL {
+		rec.Label("has-schema-change")
+	}
 	seen := map[string]bool{}
 	for _, r := range c.Reqs {
 		if r.Tx {
@@ -1026,7 +1220,11 @@ func c27Run(rt *rapid.T, rec *vstat.Rec, env *c27Env, c c27Case) {
 		rec.Label(l)
 	}
 	if firstFail != nil {
-		if rec.KnownHit(firstFail.sig, c27KnownWhat[firstFail.sig]) {
+		what := c27KnownWhat[firstFail.sig]
+		if strings.HasPrefix(firstFail.sig, "C27/wrong-column-names-after-schema-change{") {
+			what = "after a schema change the column names attached to CDC events are looked up on a read-only connection that does not see the change (old names, or an error instead of values)"
+		}
+		if rec.KnownHit(firstFail.sig, what) {
 			return
 		}
 		rt.Fatalf("%s", rec.Violation(firstFail.sig, "%s ;; case: %s", firstFail.msg, c.render()))
@@ -1035,7 +1233,7 @@ func c27Run(rt *rapid.T, rec *vstat.Rec, env *c27Env, c c27Case) {
 
 func TestVerif_C27_Store(t *testing.T) {
 	rec := vstat.New(t, "C27", "store",
-		"rapid: 1-3 write requests of 1-5 statements (single/multi-row INSERT, OR REPLACE/IGNORE/FAIL, UPSERT, UPDATE incl. rowid-changing, UNIQUE-violating, OR REPLACE and no-op, DELETE incl. whole table and FK cascade, trigger-driven writes, FK/UNIQUE/PK failures after earlier rows of the statement fired, syntax errors, explicit BEGIN..COMMIT/ROLLBACK, SAVEPOINT..ROLLBACK TO..RELEASE blocks, transaction flag on/off, Store.Execute and Store.Request) over four tables with INTEGER/REAL/TEXT/BLOB/NUMERIC/untyped columns, rowid alias and plain rowid, values of every storage class; Store.EnableCDC with table filter none/5 regexes, row-ids-only on/off; one real single-node store per process, schema recreated (CDC off) per case; non-trivial = events were emitted and the program has a failing statement or a multi-event group; distinct by full program text")
+		"rapid: 1-3 write requests of 1-5 statements (single/multi-row INSERT, OR REPLACE/IGNORE/FAIL, UPSERT, UPDATE incl. rowid-changing, UNIQUE-violating, OR REPLACE and no-op, DELETE incl. whole table and FK cascade, trigger-driven writes, FK/UNIQUE/PK failures after earlier rows of the statement fired, syntax errors, explicit BEGIN..COMMIT/ROLLBACK, SAVEPOINT..ROLLBACK TO..RELEASE blocks, at most one schema change per request (ALTER TABLE RENAME/ADD/DROP COLUMN, CREATE/DROP TABLE d with different column lists) with writes before and after it, read-only pool connections warmed before each case, transaction flag on/off, Store.Execute and Store.Request) over four tables with INTEGER/REAL/TEXT/BLOB/NUMERIC/untyped columns, rowid alias and plain rowid, values of every storage class; Store.EnableCDC with table filter none/5 regexes, row-ids-only on/off; one real single-node store per process, schema recreated (CDC off) per case; non-trivial = events were emitted and the program has a failing statement or a multi-event group; distinct by full program text")
 	env, err := c27NewEnv()
 	if err != nil {
 		t.Skipf("infrastructure: %v", err)
